@@ -59,6 +59,8 @@ def make_ob(magic, version, get_code, tier):
     kind = header_kind(version, magic, pypy3)
     nhdr = {"ts": 4, "ts+size": 8, "pep552": 12}[kind]
     host = magic == M.PYTHON_MAGIC_INT
+    # documented hack: PyPy 3.2 wrote the magic b'0\0\r\n' (48); xdis deliberately reports it as 3187 ("3.2pypy")
+    report_magic = 3180 + 7 if magic == 48 else magic
     params = [("h%d" % i, (0, 255)) for i in range(nhdr)]
     if get_code and not host:
         params += [("p%d" % i, (0, 255)) for i in range(4)]
@@ -93,7 +95,7 @@ def make_ob(magic, version, get_code, tier):
     def check(res, kw, rd, items):
         vt, ts, mi, co, ispypy, size, sip = res
         ets, esize, esip = expect(kw)
-        assert mi == magic, "magic_int %r" % (mi,)
+        assert mi == report_magic, "magic_int %r" % (mi,)
         assert tuple(vt[:2]) == tuple(version), "version %r" % (vt,)
         for nm, got, want in (("timestamp", ts, ets), ("source_size", size, esize), ("sip_hash", sip, esip)):
             if want is None:
@@ -141,7 +143,7 @@ def make_ob(magic, version, get_code, tier):
             shutil.rmtree(d, ignore_errors=True)
         ets, esize, esip = expect(kw)
         vt, ts, mi, co, ispypy, size, sip = res
-        if (ts, size, sip) != (ets, esize, esip) or mi != magic or tuple(vt[:2]) != tuple(version):
+        if (ts, size, sip) != (ets, esize, esip) or mi != report_magic or tuple(vt[:2]) != tuple(version):
             return "load_module(%r): (version %r, timestamp %r, size %r, sip_hash %r); the %d.%d format stores (timestamp %r, size %r, hash %r)" % (
                 data, vt, ts, size, sip, version[0], version[1], ets, esize, esip)
         if get_code:
